@@ -124,3 +124,110 @@ Example C27_ex_run :
   Ok [(9, Accepted); (1, Removed); (5, Cancelled); (3, Removed)] /\
   apply [] (mk_op OAccept 3 4 76 10 false) = Panic.
 Proof. vm_compute. repeat split. Qed.
+
+(* ------------------------------------------------------------------------------
+   C27 over the consensus chain of C28: the timestamp precondition discharged.
+
+   [chain l] (Model/KernelSnap.v) is what C28 proves of the recorded consensus
+   history: one transaction per record, each record linked to the next,
+   timestamps strictly increasing (C28_single_chain: every store reached by
+   writeConsensusSnapshot calls is a chain).  [project body l] (Proofs/
+   LifecycleChainLink.v) is the list of node operations finalization applies to
+   the membership history: the records of l whose transaction is a node
+   pledge/accept/cancel/remove ([body t = Some (kind, signer, payee)], the
+   TRANSACTION body of the recorded hash), in chain order, with the record's
+   transaction hash and snapshot timestamp.  g is the record of the genesis
+   consensus snapshot, gs the genesis nodes (timestamps up to g's).  What is
+   left of the timestamp hypothesis is only the range: a uint64 timestamp 12 h
+   below 2^64 ([in_range]). *)
+Require Import Mixin.Model.KernelSnap Mixin.Proofs.LifecycleChainLink.
+Open Scope N_scope.
+
+Theorem C27_chain_projection_increasing : forall body g rest,
+  chain (g :: rest) -> (0 <= cr_ts g)%Z -> Forall in_range rest ->
+  increasing_from (Z.to_N (cr_ts g)) (project body rest).
+Proof. exact chain_projection_increasing. Qed.
+Print Assumptions C27_chain_projection_increasing.
+
+Theorem C27_lifecycle_over_consensus_chain : forall body gs g rest pre o post,
+  chain (g :: rest) -> (0 <= cr_ts g)%Z -> Forall in_range rest ->
+  genesis_ok (Z.to_N (cr_ts g)) gs ->
+  project body rest = pre ++ o :: post ->
+  let h := run (gs ++ pre) in
+  (forall s, node_ok h s) /\
+  (forall s1 s2, is_pledging h s1 -> is_pledging h s2 -> s1 = s2) /\
+  match NodeState.apply h o with
+  | Ok h' => h' = h ++ [rec_of o] /\ guard h o
+  | Err => ~ guard h o
+  | Panic => h = [] /\ o_kind o <> OPledge
+  end.
+Proof. exact lifecycle_over_chain. Qed.
+Print Assumptions C27_lifecycle_over_consensus_chain.
+
+(* The same stated on C28's write histories: whatever sequence of
+   writeConsensusSnapshot calls follows the genesis record g, the store is a
+   chain that still starts at g's timestamp (C28_single_chain), and the
+   membership history built from its node operations obeys the lifecycle. *)
+Theorem C27_lifecycle_over_consensus_writes : forall body gs g cops,
+  chain [g] -> Forall (fun c => co_genesis c = false) cops ->
+  exists g' rest,
+    fold_left apply_cop cops [g] = g' :: rest /\ cr_ts g' = cr_ts g /\ chain (g' :: rest) /\
+    ((0 <= cr_ts g)%Z -> Forall in_range rest -> genesis_ok (Z.to_N (cr_ts g)) gs ->
+     forall pre o post, project body rest = pre ++ o :: post ->
+       let h := run (gs ++ pre) in
+       (forall s, node_ok h s) /\
+       (forall s1 s2, is_pledging h s1 -> is_pledging h s2 -> s1 = s2) /\
+       match NodeState.apply h o with
+       | Ok h' => h' = h ++ [rec_of o] /\ guard h o
+       | Err => ~ guard h o
+       | Panic => h = [] /\ o_kind o <> OPledge
+       end).
+Proof. exact lifecycle_over_consensus_writes. Qed.
+Print Assumptions C27_lifecycle_over_consensus_writes.
+
+Theorem C27_reported_over_consensus_chain : forall body gs g rest th,
+  chain (g :: rest) -> (0 <= cr_ts g)%Z -> Forall in_range rest ->
+  genesis_ok (Z.to_N (cr_ts g)) gs ->
+  let ops := project body rest in
+  let h := run (gs ++ ops) in
+  last_ts (Z.to_N (cr_ts g)) ops <= th -> th < NodeState.two64 ->
+  read_all_nodes h th true = Ok h /\
+  exists l, read_all_nodes h th false = Ok l /\
+            (forall r, In r l <-> current h (n_signer r) = Some r) /\
+            NoDup (map n_signer l).
+Proof. exact reported_over_chain. Qed.
+Print Assumptions C27_reported_over_consensus_chain.
+
+(* Non-vacuity: a consensus chain (genesis record, a pledge, a mint, the accept)
+   built by the model's own writeConsensusSnapshot; its projection and the
+   membership history it yields. *)
+Definition c27_body : body_t := fun t =>
+  match t with 72 => Some (OPledge, 3, 4) | 76 => Some (OAccept, 3, 4) | _ => None end.
+Definition c27_grec : crec :=
+  {| cr_ts := 5; cr_snap := 500; cr_txs := [71]; cr_ref := None; cr_next := None |}.
+Definition c27_cop (ts : Z) (snap tx ref : N) (mint : bool) (out0 : Z) : cop :=
+  {| co_ts := ts; co_snap := snap; co_txs := [tx]; co_tx := tx; co_refs := [ref];
+     co_mint := mint; co_out0 := Some out0; co_genesis := false |}.
+Definition c27_cops : list cop :=
+  [ c27_cop 6 501 72 71 false ONodePledge;
+    c27_cop 6 502 99 72 false ONodeAccept;    (* refused: not later than the last record *)
+    c27_cop 8 503 90 72 true OScript;         (* a mint *)
+    c27_cop 10 504 76 90 false ONodeAccept ].
+
+Example C27_ex_chain :
+  chain [c27_grec] /\ Forall (fun c => co_genesis c = false) c27_cops /\
+  exists g' rest,
+    fold_left apply_cop c27_cops [c27_grec] = g' :: rest /\ chain (g' :: rest) /\
+    Forall in_range rest /\ genesis_ok (Z.to_N (cr_ts g')) c27_gs /\
+    map cr_ts (g' :: rest) = [5; 6; 8; 10]%Z /\
+    project c27_body rest = [mk_op OPledge 3 4 72 6 false; mk_op OAccept 3 4 76 10 false] /\
+    map (fun r => (n_signer r, n_state r, n_ts r)) (run (c27_gs ++ project c27_body rest)) =
+      [(1, Accepted, 5); (9, Accepted, 5); (3, Pledging, 6); (3, Accepted, 10)].
+Proof.
+  split; [apply (chain_one _ 71); reflexivity|]. split; [repeat constructor|].
+  eexists. eexists. split; [vm_compute; reflexivity|].
+  split; [apply Mixin.Proofs.KernelSnap.chainb_sound; vm_compute; reflexivity|].
+  split; [repeat constructor; vm_compute; reflexivity|].
+  split; [exact (proj1 C27_ex_schedule)|].
+  vm_compute. repeat split.
+Qed.
